@@ -4,6 +4,7 @@ TLC is a reference evaluator here (no state space): module spec/data/KDF transcr
 section 4.1 (counter mode), RFC 5297 section 2.4 (S2V), RFC 7914 (scrypt) and bcrypt ($2a$, EksBlowfish), each with its domain
 predicate; spec/trace/KdfTrace judges every call recorded from the real library by harness/drivers/c12_kdf.py."""
 import copy
+import re
 from concurrent.futures import ThreadPoolExecutor
 
 from .. import tlc
@@ -11,7 +12,7 @@ from ..core import Machinery
 
 LEVEL = "exploration"
 MODULES = ["KDF", "HashAlgs", "AesAead", "AES", "Salsa20", "Blowfish", "SHA256", "SHA1", "SHA512", "MD5", "MD2", "CipherWords"]
-SLOW_MODULES = ["KDFBcryptKat"]          # minutes each: thorough tier (and ./check setup)
+SLOW_MODULES = ["KDFBcryptKat", "KDFBcryptKat2"]          # minutes each: thorough tier (and ./check setup)
 LABEL = {"pbkdf1": "PBKDF1", "pbkdf2": "PBKDF2", "hkdf": "HKDF", "sp108": "SP800_108_Counter", "scrypt": "scrypt", "bcrypt": "bcrypt",
          "bcrypt_check": "bcrypt_check", "s2v": "S2V"}
 F10_KEY = "S2V: empty vector returns CMAC(K, zero) instead of CMAC(K, <one>)"
@@ -26,6 +27,82 @@ def balance(traces, shards=16):
         row = ts[i:i + shards]
         out += row if (i // shards) % 2 == 0 else row[::-1]
     return out
+
+
+# ---------------------------------------------------------------------------------------------- EksBlowfish witnesses
+# bcrypt at cost c runs 1 + 2 * 2^c key expansions of 521 Blowfish encryptions each (about 3 s of TLC time per expansion).  So that one
+# value does not occupy one JVM for minutes, the chain is cut into links: this untrusted Python implementation supplies every intermediate
+# state, TLC recomputes each link on its own (spec/trace/KdfTrace: "eks-link") and the final 64 x 3 encryptions ("eks-final").  A wrong
+# witness can only make a link fail (machinery failure), never make a wrong value pass.
+M32 = 0xffffffff
+
+
+def _pi_tables():
+    src = open(tlc.find_module("Blowfish")).read()
+
+    def tab(name):
+        m = re.search(r"^%s == (<<.*>>)\s*$" % name, src, re.M)
+        return [int(a) * 65536 + int(b) for a, b in re.findall(r"<<(\d+),(\d+)>>", m.group(1))]
+    return tab("PInit"), [tab("SInit%d" % i) for i in (1, 2, 3, 4)]
+
+
+class _Eks(object):
+    def __init__(self, P, S):
+        self.P, self.S = list(P), [list(x) for x in S]
+
+    def enc(self, l, r):
+        P, S = self.P, self.S
+        for i in range(16):
+            l ^= P[i]
+            r ^= ((((S[0][l >> 24] + S[1][(l >> 16) & 255]) & M32) ^ S[2][(l >> 8) & 255]) + S[3][l & 255]) & M32
+            l, r = r, l
+        return r ^ P[17], l ^ P[16]
+
+    def expand(self, data, salt=None):
+        n, j = len(data), 0
+        for i in range(18):
+            w = 0
+            for _ in range(4):
+                w = (w << 8) | data[j % n]
+                j += 1
+            self.P[i] ^= w
+        sw = [int.from_bytes(bytes(salt[4 * i:4 * i + 4]), "big") for i in range(4)] if salt is not None else [0, 0, 0, 0]
+        l = r = k = 0
+        for i in range(0, 18, 2):
+            l, r = self.enc(l ^ sw[2 * (k % 2)], r ^ sw[2 * (k % 2) + 1])
+            self.P[i], self.P[i + 1] = l, r
+            k += 1
+        for box in self.S:
+            for i in range(0, 256, 2):
+                l, r = self.enc(l ^ sw[2 * (k % 2)], r ^ sw[2 * (k % 2) + 1])
+                box[i], box[i + 1] = l, r
+                k += 1
+
+    def snapshot(self):
+        return {"p": [[w >> 16, w & 65535] for w in self.P], "s": [[[w >> 16, w & 65535] for w in box] for box in self.S]}
+
+
+def eks_chain(t, next_tid):
+    """the link and final records of one bcrypt value record t"""
+    P, S = _pi_tables()
+    pw, salt, cost = t["pw"], t["salt"], t["bcost"]
+    key = (pw + [0]) if len(pw) < 72 else pw[:72]
+    e = _Eks(P, S)
+    e.expand(key, salt)
+    states = [e.snapshot()]
+    for _ in range(2 ** cost):
+        e.expand(key)
+        states.append(e.snapshot())
+        e.expand(salt)
+        states.append(e.snapshot())
+    recs = []
+    empty = {"p": [], "s": []}
+    for i, st in enumerate(states):
+        recs.append({"tid": next_tid + i, "alg": "eks-link", "cost": 3400, "of": t["tid"], "i": i, "pw": pw, "salt": salt, "bcost": cost,
+                     "s_in": states[i - 1] if i else empty, "s_out": st})
+    recs.append({"tid": next_tid + len(states), "alg": "eks-final", "cost": 1500, "of": t["tid"], "pw": pw, "salt": salt, "bcost": cost, "exc": t["exc"],
+                 "nlinks": len(states), "state": states[-1], "out": t["out"]})
+    return recs
 
 
 def selftest(mods):
@@ -89,14 +166,26 @@ def run(ctx):
     if len(records) < (1000 if quick else 8000):
         raise Machinery("the recorder produced only %d records" % len(records))
     # 2. code -> spec: TLC decides the domain and computes every expected value from the transcribed specifications.
-    #    The few records whose bcrypt value is recomputed through EksBlowfish take minutes each: their own JVMs, concurrently.
-    slow = [t for t in records if t["alg"] == "bcrypt" and t["eks"] and t["exc"] == "none"]
-    slow_ids = set(t["tid"] for t in slow)
-    fast = [t for t in records if t["tid"] not in slow_ids]
-    fslow = pool.submit(ctx.validate, "KdfTrace", slow, family="bcrypt-eksblowfish-values", timeout=3000) if slow else None
-    verdicts = ctx.validate("KdfTrace", balance(fast), family="kdf-values", timeout=3000)
-    if fslow is not None:
-        verdicts.update(fslow.result())
+    #    The bcrypt values selected by the recorder (flag eks) are recomputed through EksBlowfish link by link (see eks_chain above).
+    valued = [t for t in records if t["alg"] == "bcrypt" and t["eks"] and t["exc"] == "none"]
+    links = []
+    for t in valued:
+        t["eks"] = False                        # in its own record only the structure is judged; the value through its chain
+        links += eks_chain(t, 1000000 + 1000 * len(links))
+    verdicts = ctx.validate("KdfTrace", balance(records + links), family="kdf-values", timeout=3000)
+    value_verdict = {}
+    for t in valued:
+        chain = [x for x in links if x["of"] == t["tid"]]
+        lk, fin = chain[:-1], chain[-1]
+        # plumbing only: consecutive records quote the same state, the last one is what the final record starts from
+        if any(lk[i]["s_in"] != lk[i - 1]["s_out"] for i in range(1, len(lk))) or fin["state"] != lk[-1]["s_out"] or [x["i"] for x in lk] != list(range(len(lk))):
+            raise Machinery("EksBlowfish witness chain is not contiguous")
+        refused = [x["i"] for x in lk if verdicts[x["tid"]][1] != "ok"]
+        if refused:
+            raise Machinery("EksBlowfish witness refused by TLC at links %s (%s): the witness generator is wrong" % (refused[:5], verdicts[lk[refused[0]]["tid"]][1]))
+        value_verdict[t["tid"]] = verdicts[fin["tid"]][1]
+        if value_verdict[t["tid"]].startswith("harness:"):
+            raise Machinery("EksBlowfish final record: %s" % value_verdict[t["tid"]])
     bad = st.result()
     pool.shutdown(wait=False)
     if bad:
@@ -106,6 +195,8 @@ def run(ctx):
     for t in records:
         ctx.count(1 + (1 if t.get("has_stream") else 0))
         pos, clause = verdicts[t["tid"]]
+        if clause == "ok" and t["tid"] in value_verdict:
+            clause = value_verdict[t["tid"]]
         name = LABEL[t["alg"]]
         p = per.setdefault(name, {"records": 0, "returned": 0, "refused": 0})
         p["records"] += 1
@@ -135,7 +226,8 @@ def run(ctx):
     ctx.extra["records_per_function"] = per
     ctx.extra["calls_refused_by_impl"] = refusals
     ctx.extra["calls_returning_a_value"] = in_domain_values
-    ctx.extra["bcrypt_values_recomputed_through_eksblowfish"] = len(slow)
+    ctx.extra["bcrypt_values_recomputed_through_eksblowfish"] = [{"cost": t["bcost"], "password_len": len(t["pw"]), "links_checked": 1 + 2 ** (t["bcost"] + 1),
+                                                                  "verdict": value_verdict[t["tid"]]} for t in valued]
     ctx.extra["pbkdf2_records_through_the_c_helper"] = sum(1 for t in records if t["alg"] == "pbkdf2" and t.get("c_helper"))
     ctx.extra["refusals_with_an_undocumented_class"] = notes
     # 3. binding self-checks: a falsified record must be rejected by the judge (one JVM each, concurrently)
@@ -169,8 +261,8 @@ def run(ctx):
         return t
     add(lambda t: t["alg"] == "pbkdf2" and t["prf"]["kind"] == "hmac" and t.get("c_helper") and t["exc"] == "none" and t["dklen"] > 0, flip_out,
         "kdf-values: one bit of a PBKDF2 key computed by the C helper")
-    add(lambda t: t["alg"] == "pbkdf2" and t["prf"]["kind"] == "toy" and t["count"] >= 100 and t["dklen"] > t["prf"]["d"], flip_out,
-        "kdf-values: one bit of the last block of a toy-PRF PBKDF2 key with 100 or more iterations")
+    add(lambda t: t["alg"] == "pbkdf2" and t["prf"]["kind"] in ("toy", "toyhmac") and t["count"] >= 50 and t["dklen"] >= 1 and t["exc"] == "none", flip_out,
+        "kdf-values: one bit of the last block of a toy-PRF PBKDF2 key with 50 or more iterations")
     add(lambda t: t["alg"] == "hkdf" and t["num_keys"] >= 2 and t["key_len"] >= 1 and t["exc"] == "none" and t["keys"][0] != t["keys"][1], swap_keys,
         "kdf-values: two HKDF keys exchanged -> not consecutive slices")
     add(lambda t: t["alg"] == "sp108" and t["num_keys"] >= 2 and t["key_len"] >= 1 and t["exc"] == "none", flip_key,
@@ -191,25 +283,36 @@ def run(ctx):
         add(lambda t: t["alg"] == "s2v" and t["exc"] == "none" and len(t["comps"]) == 0,
             lambda t: dict(t, out=[0] * 16), "kdf-values: S2V of the empty vector")
 
+    # the EksBlowfish judge itself: one falsified intermediate state and one falsified character of the value must be refused
+    checks_eks = []
+    if valued and all(v == "ok" for v in value_verdict.values()):
+        chain = [x for x in links if x["of"] == valued[0]["tid"]]
+
+        def eks_selfcheck():
+            a = copy.deepcopy(chain[3])
+            a["s_out"]["s"][2][100][1] ^= 1
+            b = copy.deepcopy(chain[-1])
+            b["out"][40] = ord("A") if b["out"][40] != ord("A") else ord("B")
+            good = copy.deepcopy(chain[1])
+            a["tid"], b["tid"], good["tid"] = 2, 3, 1
+            v, _ = tlc.validate_traces("KdfTrace", [good, a, b], shards=3, timeout=3000)
+            ok = v[1][1] == "ok" and v[2][1] == "harness: witness link refused" and v[3][1] == "derived key differs from the specification"
+            ctx.binding_checks.append({"family": "kdf-values: EksBlowfish chain - one bit of a claimed intermediate state / one character of the bcrypt value",
+                                       "original": v[1][1], "corrupted": "%s / %s" % (v[2][1], v[3][1]), "ok": ok})
+            if not ok:
+                raise Machinery("binding self-check failed for the EksBlowfish chain: %s" % v)
+        checks_eks.append(eks_selfcheck)
+
     def selfcheck(c):
+        if callable(c):
+            return c()
         good, corrupt, what = c
         ctx.binding_selfcheck("KdfTrace", good, corrupt, what)
-    with ThreadPoolExecutor(max_workers=max(1, len(checks))) as ex:
-        list(ex.map(selfcheck, checks))
-    # the EksBlowfish judge itself: falsify the value of the cheapest recomputed record (thorough tier; it costs another evaluation)
-    if not quick and slow and any(okrec(t) for t in slow):
-        g = next(t for t in slow if okrec(t))
-
-        def flip_hash(t):
-            t["out"][40] = ord("A") if t["out"][40] != ord("A") else ord("B")
-            return t
-        bad_copy = flip_hash(copy.deepcopy(g))
-        bad_copy["tid"] = 2
-        v, _ = tlc.validate_traces("KdfTrace", [bad_copy], shards=1, timeout=3000)
-        ok = v[2][1] != "ok"
-        ctx.binding_checks.append({"family": "bcrypt-eksblowfish-values: one character of the hash field", "original": "ok", "corrupted": v[2][1], "ok": ok})
-        if not ok:
-            raise Machinery("binding self-check failed: a falsified bcrypt value was accepted")
+    with ThreadPoolExecutor(max_workers=max(1, len(checks) + len(checks_eks))) as ex:
+        list(ex.map(selfcheck, checks + checks_eks))
+    checks_eks = []
+    for c in checks_eks:
+        c()
     ctx.rule = ("one record per call. PBKDF2: toy PRFs (digest 1..8 bytes) with every dkLen 0..3*hLen+1 and beyond, counts 1..20/50/100/255..257/999/1000 and 0; "
                 "HMAC over 15 hashes through hmac_hash_module= (C helper _pbkdf2_hmac_assist for MD5/SHA-1/SHA-2), prf= and the default, dkLen "
                 "1/hLen-1/hLen/hLen+1/2hLen/2hLen+1/3hLen/3hLen+1, counts 1..20. PBKDF1: toy hash and MD2/MD5/SHA-1, dkLen 0..hLen+2, salt 0/7/8/9/16 bytes, "
@@ -224,7 +327,9 @@ def run(ctx):
                "(RFC 6070, RFC 5869 A, RFC 7914 8/11/12, RFC 5297 A.1, crypt_blowfish) and by values of OpenSSL/hashlib/crypt(3) as ASSUMEs, self-tested in this run"
                + (" except the bcrypt known answers of module KDFBcryptKat (minutes; thorough tier and ./check setup)" if quick else ""))
     ctx.assume("TLC is a reference evaluator here (no state space): bounds are those of the rule - real-PRF iteration counts <= 20 (one PBKDF1 record with "
-               "1000), scrypt N <= 128, bcrypt values at cost 4 only (%d in this run); beyond them the structure is covered by the toy primitives" % len(slow))
+               "1000), scrypt N <= 128, bcrypt values at cost 4 (one at cost 5 in the thorough tier; %d in this run); beyond them the structure is covered by the toy primitives" % len(valued))
+    ctx.assume("bcrypt values are recomputed link by link: harness Python supplies the 1 + 2 * 2^cost intermediate EksBlowfish states as untrusted "
+               "witnesses, TLC recomputes every link and the final encryptions; Python only compares that consecutive records quote the same state")
     ctx.assume("bcrypt_check is judged against the implementation's own bcrypt() for the offered cost and salt (reference call recorded next to each offer); "
                "the EksBlowfish value of those reference calls is not recomputed by TLC, only that of the bcrypt records flagged eks")
     ctx.assume("the toy hash / PRF is defined twice (spec/data/KDF!ToyHash, harness/drivers/c12_kdf.py:toy_digest); the two definitions are pinned on each "
